@@ -200,4 +200,18 @@ def run(repo, tier):
     res.floor('T-FAMILY', 5)
     res.floor('T-SLOT', 14)
     res.floor('SPEC', 15)
+    from .common import run_clones, run_loop_twin
+    if run_clones(repo, res) < 25:
+        raise AnalysisError('vanished anchor: cloned shape/moment methods of SourceCatalog and ApertureStats')
+    run_loop_twin(repo, res, {'photutils.segmentation.catalog', 'photutils.aperture.stats'})
+    from .common import apply_specs, run_cast_to_data_dtype
+    ASD = 'photutils.aperture.stats.ApertureStats.'
+    apply_specs(repo, res, [
+        (ASD + '_aperture_masks', 'stmt', 'aperture_masks = self._pixel_aperture.to_mask(method=self.sum_method, subpixels=self.subpixels)',
+         'the masks of the configured sum_method/subpixels'),
+        (ASD + '_aperture_masks', 'nret', '1', 'one exit: no shortcut through the centre masks (subpixels is ignored for exact, so subpixels == 1 does not mean centre)'),
+        (ASD + '_aperture_masks_center', 'stmt', "aperture_masks = self._pixel_aperture.to_mask(method='center')", 'the centre-method masks'),
+        (ASD + '_aperture_masks_center', 'nret', '1', 'one exit'),
+    ])
+    run_cast_to_data_dtype(repo, res, {'photutils.aperture.stats', 'photutils.aperture.core', 'photutils.aperture.photometry', 'photutils.aperture.mask'})
     return res
